@@ -309,9 +309,17 @@ theorem C11_other_calls_keep (s : State) (hwf : s.WF) (c : Call) (hc : isPurging
   | sessInfo h => simp only [step, guardInit]; split
                   · exact keep
                   · unfold stepSessInfo; step_cases <;> exact keep
-  | login h u p => simp only [step, guardInit]; split
-                   · exact keep
-                   · unfold stepLogin; step_cases <;> exact keep
+  | login hS u p =>
+    simp only [step, guardInit]; split
+    · exact keep
+    · unfold stepLogin
+      split
+      · exact keep
+      next ss hs =>
+        have hget : ∀ (x : Sess), (s.handles.setSess hS x).get k = some (updSess hS x k e) := by
+          intro x; rw [get_setSess, hg]; rfl
+        step_cases
+        all_goals first | exact keep | exact ⟨_, hget _, hupd hS _ ss hs (by rfl) (by rfl)⟩
   | initPin h p => simp only [step, guardInit]; split
                    · exact keep
                    · unfold stepInitPin; step_cases <;> exact keep
@@ -407,7 +415,7 @@ theorem C11_dead_stays_dead (s : State) (hwf : s.WF) (c : Call) (k : Nat) (hk : 
                   · unfold stepSessInfo; step_cases <;> exact hg
   | login h u p => simp only [step, guardInit]; split
                    · exact hg
-                   · unfold stepLogin; step_cases <;> exact hg
+                   · unfold stepLogin; step_cases <;> first | exact hg | exact get_none_setSess _ _ _ k hg
   | logout h =>
     simp only [step, guardInit]; split
     · exact hg
